@@ -8,11 +8,11 @@ package main
 
 import (
 	"bytes"
-	"encoding/base64"
 	"crypto/rand"
 	"crypto/rsa"
 	"crypto/x509"
 	"crypto/x509/pkix"
+	"encoding/json"
 	"encoding/pem"
 	"fmt"
 	"math/big"
@@ -96,13 +96,13 @@ var c20PkixName = pkix.Name{CommonName: "Crossplane", Organization: []string{"Cr
 // c20Crypto implements initializer.CertificateGenerator.
 type c20Crypto struct {
 	real   bool
-	next   int                      // id of the next generated key pair
-	calls  int                      // Generate invocations
-	slot   int                      // next pool slot
-	keys   map[int]*rsa.PrivateKey  // kp -> private key
-	modKP  map[string]int           // modulus -> kp
-	blobOf map[string]*c20Blob      // bytes -> abstract blob
-	pemOf  map[string][]byte        // canonical blob key -> bytes (seeded material)
+	next   int                       // id of the next generated key pair
+	calls  int                       // Generate invocations
+	slot   int                       // next pool slot
+	keys   map[int]*rsa.PrivateKey   // kp -> private key
+	modKP  map[string]int            // modulus -> kp
+	blobOf map[string]*c20Blob       // bytes -> abstract blob
+	pemOf  map[string][]byte         // canonical blob key -> bytes (seeded material)
 	certs  map[int]*x509.Certificate // kp -> a CA certificate for that key pair (seeding)
 }
 
@@ -183,6 +183,9 @@ func (g *c20Crypto) Generate(tmpl *x509.Certificate, signer *initializer.Certifi
 	dns := append([]string{}, c.DNSNames...)
 	g.blobOf[string(crtB)] = &c20Blob{T: "c", KP: id, By: by, DNS: dns, CA: c.IsCA}
 	g.blobOf[string(keyB)] = &c20Blob{T: "k", KP: id}
+	// another writer that copies this material (a CA bundle, a secret) writes these very bytes
+	g.pemOf[c20BlobKey(g.blobOf[string(crtB)])] = crtB
+	g.pemOf[c20BlobKey(g.blobOf[string(keyB)])] = keyB
 	return keyB, crtB, nil
 }
 
@@ -267,11 +270,14 @@ func (g *c20Crypto) blob(b []byte) *c20Blob {
 // ---------------------------------------------------------------- world
 
 type c20World struct {
-	scheme *runtime.Scheme
-	st     *Store
-	crypto *c20Crypto
-	crds   map[string]bool   // CRD names whose custom resources are observed
-	issued map[string]string // leaf secrets issued during the scenario (name -> by whom), see chainMonitor
+	scheme  *runtime.Scheme
+	st      *Store
+	crypto  *c20Crypto
+	crds    map[string]bool    // CRD names whose custom resources are observed
+	issued  map[string]string  // leaf secrets issued during the scenario (name -> by whom), see chainMonitor
+	decoys  map[string]string  // Decoy scenarios: the look-alike secrets as seeded
+	steps   []initializer.Step // Reuse scenarios: the step objects, built once
+	touched map[string]bool    // objects another writer changed during the current run ("S/name", "P/name", "CRD/name", "L", ...)
 }
 
 func c20Extra(n int) map[string]string {
@@ -305,6 +311,122 @@ func c20Versions(vs []c20Ver, content int) []extv1.CustomResourceDefinitionVersi
 	return out
 }
 
+// ---- seeding of abstract objects (initial cluster contents and the writes of other clients)
+
+func (w *c20World) secretData(x c20Secret) map[string][]byte {
+	data := map[string][]byte{}
+	if x.Crt != nil {
+		data[corev1.TLSCertKey] = w.crypto.bytesOf(x.Crt)
+	}
+	if x.Key != nil {
+		data[corev1.TLSPrivateKeyKey] = w.crypto.bytesOf(x.Key)
+	}
+	if x.CA != nil {
+		data[initializer.SecretKeyCACert] = w.crypto.bytesOf(x.CA)
+	}
+	if x.Others != 0 {
+		data["other"] = []byte(strconv.Itoa(x.Others))
+	}
+	return data
+}
+
+func (w *c20World) seedSecret(ns string, x c20Secret) {
+	w.st.Seed(&corev1.Secret{ObjectMeta: metav1.ObjectMeta{Name: x.Name, Namespace: ns, Labels: c20Extra(x.Meta)}, Data: w.secretData(x)})
+}
+
+func (w *c20World) seedPkg(x c20Pkg) {
+	var o pkgv1.Package
+	switch x.Kind {
+	case "P":
+		o = &pkgv1.Provider{}
+	case "C":
+		o = &pkgv1.Configuration{}
+	default:
+		o = &pkgv1.Function{}
+	}
+	o.SetName(x.Name)
+	o.SetSource(x.Raw)
+	if x.Extra != 0 {
+		n := int64(x.Extra)
+		o.SetRevisionHistoryLimit(&n)
+	}
+	o.SetConditions(xpv1.Available())
+	w.st.Seed(o)
+}
+
+func (w *c20World) seedCrd(x c20Crd) {
+	w.crds[x.Name] = true
+	group, kind, listKind, plural := c20CrdParts(x.Name)
+	stored := x.Stored
+	if stored == nil {
+		stored = []string{}
+	}
+	crd := &extv1.CustomResourceDefinition{ObjectMeta: metav1.ObjectMeta{Name: x.Name, Labels: c20Extra(x.Extra)},
+		Spec: extv1.CustomResourceDefinitionSpec{Group: group, Scope: extv1.ClusterScoped,
+			Names:    extv1.CustomResourceDefinitionNames{Kind: kind, ListKind: listKind, Plural: plural, Singular: strings.ToLower(kind)},
+			Versions: c20Versions(x.Versions, x.Content)},
+		Status: extv1.CustomResourceDefinitionStatus{StoredVersions: stored}}
+	if x.Conv {
+		path := "/convert"
+		crd.Spec.Conversion = &extv1.CustomResourceConversion{Strategy: extv1.WebhookConverter, Webhook: &extv1.WebhookConversion{
+			ConversionReviewVersions: []string{"v1"},
+			ClientConfig:             &extv1.WebhookClientConfig{Service: &extv1.ServiceReference{Name: "webhook-service", Namespace: "system", Path: &path}, CABundle: w.crypto.bytesOf(x.Bundle)}}}
+	}
+	w.st.Seed(crd)
+}
+
+func (w *c20World) seedWhc(x c20Whc) {
+	mk := func(h c20Hook) admv1.WebhookClientConfig {
+		port := int32(h.Svc.Port)
+		path := "/validate"
+		return admv1.WebhookClientConfig{CABundle: w.crypto.bytesOf(h.Bundle), Service: &admv1.ServiceReference{Name: h.Svc.Name, Namespace: h.Svc.NS, Port: &port, Path: &path}}
+	}
+	none := admv1.SideEffectClassNone
+	fail := admv1.Fail
+	if x.Kind == "V" {
+		o := &admv1.ValidatingWebhookConfiguration{ObjectMeta: metav1.ObjectMeta{Name: x.Name, Labels: c20Extra(x.Extra)}}
+		for _, h := range x.Hooks {
+			o.Webhooks = append(o.Webhooks, admv1.ValidatingWebhook{Name: h.Name, ClientConfig: mk(h), SideEffects: &none, FailurePolicy: &fail, AdmissionReviewVersions: []string{"v1"}})
+		}
+		w.st.Seed(o)
+	} else {
+		o := &admv1.MutatingWebhookConfiguration{ObjectMeta: metav1.ObjectMeta{Name: x.Name, Labels: c20Extra(x.Extra)}}
+		for _, h := range x.Hooks {
+			o.Webhooks = append(o.Webhooks, admv1.MutatingWebhook{Name: h.Name, ClientConfig: mk(h), SideEffects: &none, FailurePolicy: &fail, AdmissionReviewVersions: []string{"v1"}})
+		}
+		w.st.Seed(o)
+	}
+}
+
+func (w *c20World) seedCr(x c20Cr) {
+	w.crds[x.Crd] = true
+	group, kind, _, _ := c20CrdParts(x.Crd)
+	u := &unstructured.Unstructured{Object: map[string]any{"apiVersion": group + "/v1", "kind": kind,
+		"metadata": map[string]any{"name": x.Name}, "spec": map[string]any{"payload": int64(x.Payload)}}}
+	w.st.Seed(u)
+}
+
+func (w *c20World) seedLock(n int) {
+	l := &pkgv1beta1.Lock{ObjectMeta: metav1.ObjectMeta{Name: "lock"}}
+	for i := 0; i < n; i++ {
+		t := pkgv1beta1.ProviderPackageType
+		l.Packages = append(l.Packages, pkgv1beta1.LockPackage{Name: fmt.Sprintf("p-%d", i), Type: &t, Source: "xpkg.upbound.io/x/p", Version: "v1.0.0"})
+	}
+	w.st.Seed(l)
+}
+
+func (w *c20World) seedSC(x c20SC) {
+	w.st.Seed(&scv1alpha1.StoreConfig{ObjectMeta: metav1.ObjectMeta{Name: "default", Labels: c20Extra(x.Extra)},
+		Spec: scv1alpha1.StoreConfigSpec{SecretStoreConfig: xpv1.SecretStoreConfig{DefaultScope: x.Scope}}})
+}
+
+func (w *c20World) seedDRC(n int) {
+	w.st.Seed(&pkgv1beta1.DeploymentRuntimeConfig{ObjectMeta: metav1.ObjectMeta{Name: "default", Labels: c20Extra(n)}})
+}
+
+// c20DecoyNS is the namespace of the look-alike secrets of a Decoy scenario.
+const c20DecoyNS = "decoy-system"
+
 func c20NewWorld(s *c20Scn) *c20World {
 	w := &c20World{scheme: c20Scheme(), crypto: c20NewCrypto(s.Real, s.Fresh), crds: map[string]bool{}, issued: map[string]string{}}
 	st := NewStore(w.scheme)
@@ -314,100 +436,31 @@ func c20NewWorld(s *c20Scn) *c20World {
 	}
 	a := s.Store
 	for _, x := range a.Secrets {
-		sec := &corev1.Secret{ObjectMeta: metav1.ObjectMeta{Name: x.Name, Namespace: s.NS, Labels: c20Extra(x.Meta)}, Data: map[string][]byte{}}
-		if x.Crt != nil {
-			sec.Data[corev1.TLSCertKey] = w.crypto.bytesOf(x.Crt)
-		}
-		if x.Key != nil {
-			sec.Data[corev1.TLSPrivateKeyKey] = w.crypto.bytesOf(x.Key)
-		}
-		if x.CA != nil {
-			sec.Data[initializer.SecretKeyCACert] = w.crypto.bytesOf(x.CA)
-		}
-		if x.Others != 0 {
-			sec.Data["other"] = []byte(strconv.Itoa(x.Others))
-		}
-		st.Seed(sec)
+		w.seedSecret(s.NS, x)
 	}
 	for _, x := range a.Pkgs {
-		var o pkgv1.Package
-		switch x.Kind {
-		case "P":
-			o = &pkgv1.Provider{}
-		case "C":
-			o = &pkgv1.Configuration{}
-		default:
-			o = &pkgv1.Function{}
-		}
-		o.SetName(x.Name)
-		o.SetSource(x.Raw)
-		if x.Extra != 0 {
-			n := int64(x.Extra)
-			o.SetRevisionHistoryLimit(&n)
-		}
-		o.SetConditions(xpv1.Available())
-		st.Seed(o)
+		w.seedPkg(x)
 	}
 	for _, x := range a.Crds {
-		w.crds[x.Name] = true
-		group, kind, listKind, plural := c20CrdParts(x.Name)
-		crd := &extv1.CustomResourceDefinition{ObjectMeta: metav1.ObjectMeta{Name: x.Name, Labels: c20Extra(x.Extra)},
-			Spec: extv1.CustomResourceDefinitionSpec{Group: group, Scope: extv1.ClusterScoped,
-				Names:    extv1.CustomResourceDefinitionNames{Kind: kind, ListKind: listKind, Plural: plural, Singular: strings.ToLower(kind)},
-				Versions: c20Versions(x.Versions, x.Content)},
-			Status: extv1.CustomResourceDefinitionStatus{StoredVersions: x.Stored}}
-		if x.Conv {
-			path := "/convert"
-			crd.Spec.Conversion = &extv1.CustomResourceConversion{Strategy: extv1.WebhookConverter, Webhook: &extv1.WebhookConversion{
-				ConversionReviewVersions: []string{"v1"},
-				ClientConfig:             &extv1.WebhookClientConfig{Service: &extv1.ServiceReference{Name: "old", Namespace: "old", Path: &path}, CABundle: w.crypto.bytesOf(x.Bundle)}}}
-		}
-		st.Seed(crd)
+		w.seedCrd(x)
 	}
 	for _, x := range a.Whcs {
-		mk := func(h c20Hook) admv1.WebhookClientConfig {
-			port := int32(h.Svc.Port)
-			path := "/validate"
-			return admv1.WebhookClientConfig{CABundle: w.crypto.bytesOf(h.Bundle), Service: &admv1.ServiceReference{Name: h.Svc.Name, Namespace: h.Svc.NS, Port: &port, Path: &path}}
-		}
-		none := admv1.SideEffectClassNone
-		if x.Kind == "V" {
-			o := &admv1.ValidatingWebhookConfiguration{ObjectMeta: metav1.ObjectMeta{Name: x.Name, Labels: c20Extra(x.Extra)}}
-			for _, h := range x.Hooks {
-				o.Webhooks = append(o.Webhooks, admv1.ValidatingWebhook{Name: h.Name, ClientConfig: mk(h), SideEffects: &none, AdmissionReviewVersions: []string{"v1"}})
-			}
-			st.Seed(o)
-		} else {
-			o := &admv1.MutatingWebhookConfiguration{ObjectMeta: metav1.ObjectMeta{Name: x.Name, Labels: c20Extra(x.Extra)}}
-			for _, h := range x.Hooks {
-				o.Webhooks = append(o.Webhooks, admv1.MutatingWebhook{Name: h.Name, ClientConfig: mk(h), SideEffects: &none, AdmissionReviewVersions: []string{"v1"}})
-			}
-			st.Seed(o)
-		}
+		w.seedWhc(x)
 	}
 	for _, x := range a.Crs {
-		w.crds[x.Crd] = true
-		group, kind, _, _ := c20CrdParts(x.Crd)
-		u := &unstructured.Unstructured{Object: map[string]any{"apiVersion": group + "/v1", "kind": kind,
-			"metadata": map[string]any{"name": x.Name}, "spec": map[string]any{"payload": int64(x.Payload)}}}
-		st.Seed(u)
+		w.seedCr(x)
 	}
 	if a.Lock != nil {
-		l := &pkgv1beta1.Lock{ObjectMeta: metav1.ObjectMeta{Name: "lock"}}
-		for i := 0; i < *a.Lock; i++ {
-			t := pkgv1beta1.ProviderPackageType
-			l.Packages = append(l.Packages, pkgv1beta1.LockPackage{Name: fmt.Sprintf("p-%d", i), Type: &t, Source: "xpkg.upbound.io/x/p", Version: "v1.0.0"})
-		}
-		st.Seed(l)
+		w.seedLock(*a.Lock)
 	}
 	if a.SC != nil {
-		st.Seed(&scv1alpha1.StoreConfig{ObjectMeta: metav1.ObjectMeta{Name: "default", Labels: c20Extra(a.SC.Extra)},
-			Spec: scv1alpha1.StoreConfigSpec{SecretStoreConfig: xpv1.SecretStoreConfig{DefaultScope: a.SC.Scope}}})
+		w.seedSC(*a.SC)
 	}
 	if a.DRC != nil {
-		st.Seed(&pkgv1beta1.DeploymentRuntimeConfig{ObjectMeta: metav1.ObjectMeta{Name: "default", Labels: c20Extra(*a.DRC)}})
+		w.seedDRC(*a.DRC)
 	}
-	for _, stp := range w.stepsOf(s) {
+	steps := w.stepsOf(s)
+	for _, stp := range steps {
 		if stp.Dir != nil {
 			for _, o := range stp.Dir.Objs {
 				if o.T == "crd" {
@@ -416,7 +469,48 @@ func c20NewWorld(s *c20Scn) *c20World {
 			}
 		}
 	}
+	if s.Decoy {
+		// every secret name the steps look at exists, complete and issued by a foreign authority, in ANOTHER namespace
+		seen := map[string]bool{}
+		decoy := func(n string, ca bool) {
+			if n == "" || seen[n] {
+				return
+			}
+			seen[n] = true
+			x := c20Secret{Name: n, Crt: &c20Blob{T: "c", KP: 31, By: 30, DNS: []string{"decoy.example.org"}}, Key: &c20Blob{T: "k", KP: 31}, CA: c20CACert(30)}
+			if ca {
+				x = c20Secret{Name: n, Crt: c20CACert(30), Key: &c20Blob{T: "k", KP: 30}}
+			}
+			w.seedSecret(c20DecoyNS, x)
+		}
+		for _, stp := range steps {
+			if stp.T == "tls" {
+				decoy(stp.CA, true)
+				for _, l := range []*c20TLSRef{stp.Server, stp.Client} {
+					if l != nil {
+						decoy(l.Name, false)
+					}
+				}
+			}
+			if stp.TLSRef != nil {
+				decoy(*stp.TLSRef, false)
+			}
+		}
+		w.decoys = c20DecoySnap(st)
+	}
 	return w
+}
+
+// c20DecoySnap: bytes of every secret outside the scenario's namespace.
+func c20DecoySnap(st *Store) map[string]string {
+	out := map[string]string{}
+	for _, u := range st.OfKind(c20GKSecret) {
+		if u.GetNamespace() == c20DecoyNS {
+			b, _ := json.Marshal(u.Object)
+			out[u.GetName()] = string(b)
+		}
+	}
+	return out
 }
 
 func c20From(u *unstructured.Unstructured, into any) {
@@ -438,18 +532,14 @@ func (w *c20World) canon(s *c20Scn) c20Store {
 	st := w.st
 	out := c20Store{Secrets: []c20Secret{}, Pkgs: []c20Pkg{}, Crds: []c20Crd{}, Whcs: []c20Whc{}, Crs: []c20Cr{}}
 	for _, u := range st.OfKind(c20GKSecret) {
+		if u.GetNamespace() == c20DecoyNS {
+			continue // look-alikes in another namespace: judged by their own monitor, unknown to the model
+		}
 		sec := &corev1.Secret{}
 		c20From(u, sec)
-		x := c20Secret{Name: sec.Name, Crt: w.crypto.blob(sec.Data[corev1.TLSCertKey]), Key: w.crypto.blob(sec.Data[corev1.TLSPrivateKeyKey]),
-			CA: w.crypto.blob(sec.Data[initializer.SecretKeyCACert]), Meta: c20ExtraOf(sec.Labels)}
-		for k, v := range sec.Data {
-			switch k {
-			case corev1.TLSCertKey, corev1.TLSPrivateKeyKey, initializer.SecretKeyCACert:
-			case "other":
-				x.Others, _ = strconv.Atoi(string(v))
-			default:
-				x.Others = -1
-			}
+		x := w.secretOf(sec)
+		if u.GetNamespace() != s.NS {
+			x.Name = u.GetNamespace() + "/" + x.Name // written into a namespace nobody configured
 		}
 		out.Secrets = append(out.Secrets, x)
 	}
@@ -574,73 +664,6 @@ func (w *c20World) adoptStored(ns string) {
 		if _, ok := g.certs[a.KP]; !ok {
 			if c := c20ParseCertPEM(b); c != nil {
 				g.certs[a.KP] = c
-			}
-		}
-	}
-}
-
-// applyPeer performs the writes of a concurrent peer initialiser out of band (no API call of ours): a missing
-// secret is created, an existing one replaced (new resourceVersion) unless it already has exactly that content.
-func (w *c20World) applyPeer(s *c20Scn, p *c20Peer, steps []c20Step) {
-	st := w.st
-	w.adoptStored(s.NS)
-	last := map[string]int{}
-	for i, x := range p.Secrets {
-		last[x.Name] = i
-	}
-	cas, leaves := c20Leaves(steps)
-	for i, x := range p.Secrets {
-		if last[x.Name] != i {
-			continue // net effect of the peer's writes in this window
-		}
-		data := map[string][]byte{}
-		if x.Crt != nil {
-			data[corev1.TLSCertKey] = w.crypto.bytesOf(x.Crt)
-		}
-		if x.Key != nil {
-			data[corev1.TLSPrivateKeyKey] = w.crypto.bytesOf(x.Key)
-		}
-		if x.CA != nil {
-			data[initializer.SecretKeyCACert] = w.crypto.bytesOf(x.CA)
-		}
-		if x.Others != 0 {
-			data["other"] = []byte(strconv.Itoa(x.Others))
-		}
-		if u := st.Peek(c20GKSecret, s.NS, x.Name); u == nil {
-			st.Seed(&corev1.Secret{ObjectMeta: metav1.ObjectMeta{Name: x.Name, Namespace: s.NS, Labels: c20Extra(x.Meta)}, Data: data})
-		} else {
-			cur := &corev1.Secret{}
-			c20From(u, cur)
-			if mustJSON(w.secretOf(cur)) == mustJSON(x) {
-				continue // same content: no write, no new resourceVersion
-			}
-			st.Mutate(c20GKSecret, s.NS, x.Name, func(u *unstructured.Unstructured) {
-				d := map[string]any{}
-				for k, v := range data {
-					d[k] = base64.StdEncoding.EncodeToString(v)
-				}
-				if len(d) == 0 {
-					delete(u.Object, "data")
-				} else {
-					u.Object["data"] = d
-				}
-				u.SetLabels(c20Extra(x.Meta))
-			})
-		}
-		// a leaf the peer issued while a complete CA is stored and that verifies against it must keep verifying
-		if ls, ok := leaves[x.Name]; ok && !cas[x.Name] && x.Crt != nil {
-			caName := c20CAOf(steps, x.Name)
-			if cu := st.Peek(c20GKSecret, s.NS, caName); cu != nil {
-				ca := &corev1.Secret{}
-				c20From(cu, ca)
-				su := st.Peek(c20GKSecret, s.NS, x.Name)
-				sec := &corev1.Secret{}
-				c20From(su, sec)
-				if _, complete := c20SecretMaterial(ca); complete && w.leafChains(st, s.NS, sec, caName, ls) == "" {
-					if _, mine := w.issued[x.Name]; !mine {
-						w.issued[x.Name] = "the peer"
-					}
-				}
 			}
 		}
 	}
